@@ -158,3 +158,19 @@ Theorem C04_groups_separated :
     gi <> gj -> t_path (snd ei') <> t_path (snd ej').
 Proof. exact ensure_unique_groups_separated. Qed.
 Print Assumptions C04_groups_separated.
+
+(** "split into >= 2 groups" in terms of the comparison alone: some position carrying the path
+    is judged different ([Ok false]) from the FIRST position carrying it ... *)
+Theorem C04_split_iff_unequal_member :
+  forall r m p gs, build_groups r = Ok m -> In (p, gs) m ->
+    ((2 <= List.length gs)%nat <->
+     exists j, entry_at r j p /\ types_equal_res r j (group_first (hd [] gs)) = Ok false).
+Proof. exact dedup_split_iff. Qed.
+Print Assumptions C04_split_iff_unequal_member.
+
+(** ... where [group_first (hd [] gs)] is the least position carrying the path *)
+Theorem C04_first_member_is_least :
+  forall r m p gs i, build_groups r = Ok m -> In (p, gs) m -> entry_at r i p ->
+    (group_first (hd [] gs) <= i)%N.
+Proof. exact dedup_first_least. Qed.
+Print Assumptions C04_first_member_is_least.
